@@ -244,6 +244,7 @@ def _fd(a, b):
 # ---- value generators --------------------------------------------------------
 
 BASE_USER = [("maxlen", 16382), ("implclass", "1.2.3.4")]
+OPAQUE = [pre + mid + post for pre in (b"", b"\x00", b" ") for mid in (b"", b"x", b"ab") for post in (b"", b"\x00", b"\x00\x00", b" ", b"\xff", b"\n") if pre + mid + post]
 
 
 def userid_variants():
@@ -332,6 +333,14 @@ def gen_values(quick):
         yield rq(user=BASE_USER + [uv])
     for rl in (0, 1, 2, 3, 300):
         yield ac(user=BASE_USER + [("userid_ac", b"r" * rl)])
+    # opaque octet fields carry arbitrary bytes: contents that begin / end with or consist only of
+    # 0x00, space, 0xFF, LF (values a text- or UID-style (un)padding routine would damage)
+    for blob in OPAQUE:
+        for ty in (1, 2, 3, 4, 5):
+            yield rq(user=BASE_USER + [("userid_rq", ty, True, blob, blob if ty == 2 else b"")])
+        yield ac(user=BASE_USER + [("userid_ac", blob)])
+        yield rq(user=BASE_USER + [("sopext", CT, blob)])
+        yield {"type": "PDATA", "pdvs": [(1, b"\x03" + blob), (3, b"\x00" + blob)]}
     for combo in itertools.product(range(3), range(3), range(3)):
         yield ac(user=BASE_USER + kinds["implver"][combo[0]] + kinds["async"][combo[1]] + kinds["role"][combo[2]])
 
